@@ -150,6 +150,7 @@ pub fn report_to_result(sc: &Scenario, rep: RunReport, restarted_only: bool) -> 
     r.add("burst_operations", s.bursts);
     r.add("burst_calls_checked_against_history_free_sampler", s.burst_calls);
     r.add("bursts_longer_than_65536_calls", s.long_bursts);
+    r.add("points_steered_onto_comparison_boundaries", crate::c17::take_steered());
     r.add("restarts", s.restarts);
     r.add("restarts_published", s.restarts_published);
     r.add("probe_restart_while_other_caller_midcall", s.restart_while_other_midcall);
